@@ -1,7 +1,7 @@
 (* C04 — Exactly-once reception: delivered once per cycle, handshake always answered.
    Property theorems only (statements: MQ.InboundProofs, printed by Check); for ALL client
    states and ALL environment scripts. *)
-From MQ Require Import Session InboundProofs.
+From MQ Require Import Session InboundProofs SaveBeforeWrite.
 
 (* While the marker of an identifier is in the Persistence, a PUBLISH with that identifier is never
    returned to the application (whatever the value, whatever fails); without failures it is answered
@@ -350,3 +350,39 @@ Proof. exact tie_example_ok. Qed.
 Example c04_tie_example_fail : ltac:(let t := type of tie_example_fail in exact t).
 Proof. exact tie_example_fail. Qed.
 Print Assumptions c04_tie_example.
+
+(* the acknowledgement flush with a PUBREC pending: a write happens only after the reception marker was saved successfully (first request of the step) *)
+Theorem c04_flush_pubrec_marker_recorded : ltac:(let t := type of flush_pubrec_marker_recorded in exact t).
+Proof. exact flush_pubrec_marker_recorded. Qed.
+Check c04_flush_pubrec_marker_recorded.
+Print Assumptions c04_flush_pubrec_marker_recorded.
+
+(* ... when the marker Save is refused nothing is written and the PUBREC stays owed *)
+Theorem c04_flush_pubrec_save_refused : ltac:(let t := type of flush_pubrec_save_refused in exact t).
+Proof. exact flush_pubrec_save_refused. Qed.
+Check c04_flush_pubrec_save_refused.
+Print Assumptions c04_flush_pubrec_save_refused.
+
+(* the same for a whole ReadSlices call on a live connection: only reads of a left-over big message precede the marker Save *)
+Theorem c04_read_flush_pubrec_marker_recorded : ltac:(let t := type of read_slices_flush_pubrec_marker_recorded in exact t).
+Proof. exact read_slices_flush_pubrec_marker_recorded. Qed.
+Check c04_read_flush_pubrec_marker_recorded.
+Print Assumptions c04_read_flush_pubrec_marker_recorded.
+
+(* without the live connection the statement is false as worded (the reconnect writes CONNECT before the marker Save): a concrete run *)
+Theorem c04_read_reconnect_writes_before_marker : ltac:(let t := type of read_reconnect_writes_before_marker in exact t).
+Proof. exact read_reconnect_writes_before_marker. Qed.
+Check c04_read_reconnect_writes_before_marker.
+Print Assumptions c04_read_reconnect_writes_before_marker.
+
+(* the handler of PUBREL: PUBCOMP is written only after the marker was deleted successfully *)
+Theorem c04_pubrel_marker_deleted_first : ltac:(let t := type of on_pubrel_marker_deleted_first in exact t).
+Proof. exact on_pubrel_marker_deleted_first. Qed.
+Check c04_pubrel_marker_deleted_first.
+Print Assumptions c04_pubrel_marker_deleted_first.
+
+(* ... when the Delete is refused nothing is written *)
+Theorem c04_pubrel_delete_refused : ltac:(let t := type of on_pubrel_delete_refused in exact t).
+Proof. exact on_pubrel_delete_refused. Qed.
+Check c04_pubrel_delete_refused.
+Print Assumptions c04_pubrel_delete_refused.
